@@ -166,6 +166,7 @@ class ManagedBSE:
         for o in outs:
             for th in o.threads.values():
                 if not th.stack: th.panicking = False; th.result = None
+            o.gset('pending_vio', tuple(s.digest(st, a, o)))
         return outs
 
     def obj_id(s, st, obj):
@@ -211,8 +212,36 @@ class ManagedBSE:
         return outs
 
     # ------------------------------------------------------------- ghost notes
-    def note_get_start(s, st, t, tvs): pass
+    def note_get_start(s, st, t, tvs):
+        calls = dict(st.gget('calls', {}))
+        calls[t] = {'after_resize': len(st.gget('resizes', ())), 'after_close': bool(st.gget('closed_ret')), 'tv': tvs,
+                    'snap': s.snapshot(st), 'clean': True, 'inhand': (), 'nogets': st.threads[t].local['gets']}
+        for o in calls:
+            if o != t: calls[o] = dict(calls[o], clean=False)
+        st.gset('calls', calls)
+
     def note_return(s, st, oid): pass
+
+    def snapshot(s, st):
+        """ground truth + real status() (on a scratch copy) for the single-task differential of C03"""
+        sc = st.clone()
+        res = s.W.status(sc, 'C', sc.gget('pool'))
+        S = res[0][1][1] if len(res) == 1 and res[0][1][0] == 'ok' else None
+        sem = s.semaphore(st)
+        return {'status': None if S is None else tuple(S.items()), 'live': tuple(sorted(s.live_ids(st))),
+                'permits': sem.f[0], 'queue': len(sem.f[2]), 'assigned': len(sem.f[3])}
+
+    def semaphore(s, st):
+        found = []
+        def walk(v):
+            if isinstance(v, Agg):
+                if v.ty == 'Semaphore': found.append(v); return
+                if v.ty in ('Obj',): return
+                for x in v.f.values(): walk(x)
+        pool = st.heap[st.gget('pool')]
+        walk(st.heap[pool.f[0].f[0].root])
+        if len(found) != 1: raise InternalError('semaphore of the pool not found')
+        return found[0]
 
     def note_susp(s, fut):
         def walk(v, acc):
@@ -418,3 +447,246 @@ class ManagedBSE:
             return out[:1]
         finally:
             s.W.env.cfg.clear(); s.W.env.cfg.update(saved)
+
+
+# ====================================================================== event digest: C03 C04 C06 C07 C08 C09 C10 C13
+def _events_since_act(st):
+    log = st.log; i = len(log) - 1
+    while i >= 0 and log[i][0] != 'act': i -= 1
+    return log[i + 1:] if i >= 0 else log
+
+
+def _digest(s, st0, a, st):
+    """update the ground-truth ghost state from the events of the last action and return oracle violations"""
+    V = []
+    def vio(prop, what, **kw): V.append(s.vio(prop, what, st, **kw))
+    ev = _events_since_act(st)
+    last = st.gget('last') or {}
+    actor = last.get('task')
+    hooks = s.cfg['hooks']
+    nh = {k: sum(1 for h in hooks if h[0] == k) for k in ('post_create', 'pre_recycle', 'post_recycle')}
+    trail = dict(st.gget('trail', {})); idleq = list(st.gget('idleq', ())); calls = dict(st.gget('calls', {}))
+    objs = st.gget('objs', {}); lifo = st.gget('lifo')
+    shadow = dict(st.gget('met_shadow', {}))
+    thread_mode = s.cfg['thread_mode']
+    resizing = a[0] in ('resize', 'close')
+    cur = calls.get(actor)
+    def touch(oid):
+        nonlocal cur
+        if cur is not None and oid not in cur['inhand']:
+            cur = dict(cur, inhand=cur['inhand'] + (oid,)); calls[actor] = cur
+    def offered(oid):
+        # first touch of an idle object by a get(): must be the one the queue mode prescribes
+        if oid in idleq:
+            exp = idleq[-1] if lifo else idleq[0]
+            if oid != exp and not thread_mode:
+                vio('C08', f'get() offered {oid} for recycling but the {"newest" if lifo else "oldest"} idle object is {exp}')
+            idleq.remove(oid)
+    for e in ev:
+        k = e[0]
+        if k in ('create_call', 'created', 'hook_call', 'recycle_call', 'detach', 'destroy', 'pred_call'):
+            th = e[1] if k == 'create_call' else (e[4] if k == 'hook_call' else e[2])
+            if th != actor and actor is not None:
+                vio('C08', f'user code ({k}) ran on a thread that is not inside a pool operation')
+            if k in ('create_call', 'hook_call', 'recycle_call') and a[0] not in ('get', 'poll'):
+                vio('C08', f'{k} invoked outside get(): during {a[0]}')
+        if k == 'create_call':
+            if idleq and not thread_mode:
+                vio('C08', 'Manager::create called although an idle object was available')
+            live = len([o for o, r in objs.items() if r['destroyed'] == 0 and r['handed'] == 0])
+        elif k == 'created':
+            trail[e[1]] = (('create', 0, 'ok'),); touch(e[1])
+        elif k == 'hook_call':
+            kind, idx, oid = e[1], e[2], e[3]
+            if kind != 'post_create': offered(oid)
+            touch(oid)
+            trail[oid] = trail.get(oid, ()) + ((kind, idx, 'started'),)
+            cur_oid = oid
+            _check_seen(s, st, shadow, objs, 'hook:' + kind, oid, e[5], vio)
+        elif k == 'recycle_call':
+            oid = e[1]; offered(oid); touch(oid)
+            trail[oid] = trail.get(oid, ()) + (('recycle', 0, 'started'),)
+            _check_seen(s, st, shadow, objs, 'recycle', oid, e[3], vio)
+        elif k == 'pred_call':
+            oid = e[1]
+            if oid not in idleq and not thread_mode: vio('C09', f'retain() predicate was shown {oid}, which is not idle')
+            _check_seen(s, st, shadow, objs, 'retain', oid, e[3], vio)
+        elif k == 'env' and e[1] in ('hook', 'recycle') and e[-1] in ('ok', 'err', 'panic'):
+            # completes the most recent started step of the object this task is working on
+            for oid in (cur['inhand'] if cur else ()):
+                tr = trail.get(oid, ())
+                if tr and tr[-1][2] == 'started':
+                    trail[oid] = tr[:-1] + ((tr[-1][0], tr[-1][1], e[-1]),)
+        elif k == 'handed':
+            if e[1] in idleq: idleq.remove(e[1])
+        elif k == 'destroy':
+            if e[1] in idleq:
+                idleq.remove(e[1])
+                if not resizing and a[0] != 'retain' and not thread_mode:
+                    vio('C05' if False else 'C09', f'idle object {e[1]} destroyed by {a[0]}')
+    # ---- end of a get() call on this action?
+    res = last.get('res')
+    if a[0] in ('get', 'poll', 'cancel') and cur is not None and res and res[0] != 'pending':
+        handed = last.get('oid') if res[:2] == ('ok', 'object') else None
+        if handed is not None:
+            tr = trail.get(handed, ())
+            exp_new = (('create', 0, 'ok'),) + tuple(('post_create', i, 'ok') for i in range(nh['post_create']))
+            exp_rec = tuple(('pre_recycle', i, 'ok') for i in range(nh['pre_recycle'])) + (('recycle', 0, 'ok'),) + \
+                tuple(('post_recycle', i, 'ok') for i in range(nh['post_recycle']))
+            if tr != exp_new and tr != exp_rec:
+                vio('C04', f'object {handed} handed out after verification steps {tr}, expected creation+post_create hooks or pre_recycle+recycle+post_recycle all ok')
+            if objs[handed]['destroyed'] or objs[handed]['detached'] or objs[handed]['handed']:
+                vio('C04', f'object {handed} handed out after it was discarded/detached')
+            trail[handed] = ()
+            if cur['after_close'] and not thread_mode:
+                vio('C06', 'get() issued after close() returned yielded an object')
+            _check_handout_metrics(s, st, shadow, objs, handed, last, vio)
+        for oid in cur['inhand']:
+            if oid == handed: continue
+            r = objs[oid]
+            if r['destroyed'] != 1 or r['detached'] != 1:
+                vio('C04' if res[0] in ('err', 'ok') else 'C03',
+                    f'object {oid} was taken in hand by a get() that ended ({res}) without handing it out, but it was destroyed {r["destroyed"]}x and detached {r["detached"]}x (expected exactly once each)')
+        if res[0] == 'err':
+            _check_error(s, st, ev, cur, res[1], vio)
+        if res[0] in ('cancelled', 'panic') or (res[0] == 'err' and res[1].startswith('Timeout')):
+            _check_abandon(s, st, cur, res, vio)
+        calls.pop(actor, None)
+    elif a[0] in ('get', 'poll') and cur is not None and res and res[0] == 'pending':
+        tv = cur['tv'] if cur['tv'] is not None else s.cfg['pool_timeouts']
+        if tv[0] == 'zero' and s.queued_for(st, actor):
+            vio('C10', 'get() with a zero wait timeout is waiting for a slot')
+    if a[0] not in ('get', 'poll', 'cancel'):
+        for o in calls: calls[o] = dict(calls[o], clean=False)
+    # ---- object returned
+    if a[0] == 'drop' and res and res[0] == 'ok':
+        oid = last['oid']; r = objs[oid]
+        if r['destroyed'] == 0:
+            idleq.append(oid)
+            if st.gget('closed_ret') and not thread_mode:
+                vio('C06', f'object {oid} returned after close() is kept by the closed pool')
+    # ---- retain
+    if a[0] == 'retain' and res and res[0] == 'ok':
+        pr = tuple(last['pred_removed']); rm = tuple(last['removed'])
+        if pr != rm: vio('C09', f'retain() removed {rm} but the predicate rejected {pr}')
+        kept = sum(1 for e in ev if e[0] == 'env' and e[1] == 'pred' and e[3] == 'keep')
+        if s.M.feasible(st, z(binop('Ne', last['retained'], I(kept)))):
+            vio('C09', f'retain() reported retained={last["retained"]!r} but the predicate kept {kept}')
+        for oid in rm:
+            if objs[oid]['detached'] != 1: vio('C09', f'object {oid} removed by retain() was detached {objs[oid]["detached"]} times')
+    # ---- detach bookkeeping (every object the pool let go of while alive is detached exactly once, none that stays)
+    for oid, r in objs.items():
+        gone = r['destroyed'] > 0 or r['handed'] > 0
+        inflight = any(oid in c['inhand'] for c in calls.values())
+        if not gone and r['detached'] > 0 and not inflight:
+            vio('C09', f'object {oid} is still in the pool but was detached')
+        if gone and r['detached'] != 1 and not inflight:
+            rel = [e for e in ev if e[0] == 'destroy' and e[1] == oid]
+            if rel and resizing and r['detached'] == 0:
+                V.append(dict(s.vio('C09', f'object {oid} released by {a[0]}() without Manager::detach', st), known='K-C09'))
+            elif rel or any(e[0] == 'handed' and e[1] == oid for e in ev):
+                vio('C09', f'object {oid} left the pool ({a[0]}) but Manager::detach was called {r["detached"]} times')
+    # ---- close / resize post-conditions (ground truth)
+    if a[0] in ('resize', 'close') and res and res[0] == 'ok' and not thread_mode:
+        n = 0 if a[0] == 'close' else a[1]
+        live = len(s.live_ids(st))
+        if not st0.gget('closed_ret') or a[0] == 'close':
+            if live > n and idleq:
+                vio('C07' if a[0] == 'resize' else 'C06', f'after {a[0]}({n}) {live} objects exist and {len(idleq)} idle objects were kept')
+        elif a[0] == 'resize':
+            if len(s.live_ids(st0)) != live: vio('C06', 'resize() on a closed pool changed the pool')
+    st.gset('trail', trail); st.gset('idleq', tuple(idleq)); st.gset('calls', calls); st.gset('met_shadow', shadow)
+    return V
+
+
+def _check_seen(s, st, shadow, objs, who, oid, mt, vio):
+    """metrics shown to hooks / recycle / retain: must equal what Object::metrics() last reported (or a fresh object's)"""
+    sh = shadow.get(oid)
+    if sh is None:
+        if mt[1] is not None or mt[2] != '0':
+            vio('C13', f'{who} saw metrics {mt} on a brand-new object {oid}')
+        shadow[oid] = {'created': mt[0], 'reported': mt}
+        return
+    if mt[0] != sh['created']: vio('C13', f'creation instant of {oid} changed: {sh["created"]} -> {mt[0]} (seen by {who})')
+    if mt != sh['reported']:
+        vio('C13', f'{who} saw metrics {mt} for {oid} but the last hand-out reported {sh["reported"]}')
+
+
+def _find_metrics(v):
+    if isinstance(v, Agg):
+        if v.ty == 'Metrics': return v
+        for x in v.f.values():
+            r = _find_metrics(x)
+            if r is not None: return r
+    return None
+
+
+def _check_handout_metrics(s, st, shadow, objs, oid, last, vio):
+    obj = st.heap[last['oroot']]
+    met = _find_metrics(obj)
+    if met is None: raise InternalError('no Metrics inside Object')
+    mt = s.W.env.metrics_tuple(met)
+    h = objs[oid]['handouts']          # including this one
+    sh = shadow.get(oid)
+    if sh is None:
+        sh = {'created': mt[0], 'reported': None}
+    if mt[0] != sh['created']: vio('C13', f'creation instant of {oid} changed: {sh["created"]} -> {mt[0]}')
+    if mt[2] != str(h - 1): vio('C13', f'recycle_count of {oid} is {mt[2]} at hand-out number {h} (expected {h - 1})')
+    if h == 1 and mt[1] is not None: vio('C13', f'last-recycled instant of {oid} is set before its first reuse')
+    if h > 1:
+        if mt[1] is None: vio('C13', f'last-recycled instant of {oid} is absent after reuse')
+        else:
+            prev = sh['reported'][1] if sh.get('reported') else None
+            if int(mt[1]) < int(mt[0]) or (prev is not None and int(mt[1]) < int(prev)):
+                vio('C13', f'last-recycled instant of {oid} moved backwards')
+    shadow[oid] = {'created': sh['created'], 'reported': mt}
+
+
+def _check_error(s, st, ev, cur, desc, vio):
+    """the error variant must match the step that failed; recycle failures are never returned"""
+    cause = None
+    for e in ev:
+        if e[0] == 'env' and e[1] == 'create' and e[3] == 'err': cause = 'Backend'
+        elif e[0] == 'env' and e[1] == 'hook' and e[2] == 'post_create' and e[4] == 'err': cause = 'PostCreateHook'
+        elif e[0] == 'env' and e[1] == 'timer' and e[3] == 'expired':
+            cause = {'wait': 'Timeout:Wait', 'create': 'Timeout:Create', 'recycle': None}.get(e[4], cause)
+    if cause is not None and desc != cause:
+        vio('C04', f'get() returned {desc} but the failing step calls for {cause}')
+    if cause is None and desc in ('Backend', 'PostCreateHook', 'Timeout:Create', 'Timeout:Recycle'):
+        vio('C04', f'get() returned {desc} although no creation step failed in this call')
+    if desc == 'Timeout:Wait' and cause is None:
+        tv = cur['tv'] if cur['tv'] is not None else s.cfg['pool_timeouts']
+        if tv[0] != 'zero': vio('C10', 'Timeout(Wait) returned without a zero wait timeout and without the deadline passing')
+    if desc == 'NoRuntimeSpecified':
+        tv = cur['tv'] if cur['tv'] is not None else s.cfg['pool_timeouts']
+        if s.cfg['runtime'] or not any(x == 'pos' for x in tv) and not any(x == 'zero' for x in tv[1:]):
+            vio('C10', 'NoRuntimeSpecified returned although a runtime is configured / no timeout is in play')
+        if any(e[0] == 'destroy' for e in ev):
+            V = dict(s.vio('C10', 'a get() that fails with NoRuntimeSpecified destroyed an idle object', st)); vio('C10', V['what'])
+
+
+def _check_abandon(s, st, cur, res, vio):
+    """C03 single-task differential: after an abandoned get() everything is as before, minus the objects discarded"""
+    if not cur['clean'] or s.cfg['thread_mode']: return
+    s0 = cur['snap']; s1 = s.snapshot(st)
+    lost = [o for o in s0['live'] if o not in s1['live']]
+    gained = [o for o in s1['live'] if o not in s0['live']]
+    if gained: vio('C03', f'abandoned get() ({res}) left new objects {gained} in the pool')
+    def ne(x, y): return s.M.feasible(st, z(binop('Ne', x, y)))
+    if ne(s0['permits'], s1['permits']) or s0['queue'] != s1['queue'] or s0['assigned'] != s1['assigned']:
+        vio('C03', f'abandoned get() ({res}) left a slot reserved or a waiter behind: permits {s0["permits"]!r}->{s1["permits"]!r}, waiters {s0["queue"]}->{s1["queue"]}')
+    a0, a1 = s0['status'], s1['status']
+    if a0 is None or a1 is None: vio('C03', 'status() unavailable around an abandoned get()'); return
+    if ne(a0[0], a1[0]) or ne(a0[3], a1[3]): vio('C03', f'status() max_size/waiting changed by an abandoned get(): {a0} -> {a1}')
+    if ne(binop('Sub', a0[1], I(len(lost))), a1[1]):
+        vio('C03', f'status().size after an abandoned get() is {a1[1]!r}, expected {a0[1]!r} minus {len(lost)} discarded')
+    if ne(binop('Sub', a0[2], I(len(lost))), a1[2]):
+        vio('C03', f'status().available after an abandoned get() is {a1[2]!r}, expected {a0[2]!r} minus {len(lost)} discarded')
+
+
+def _queued_for(s, st, t):
+    return t in s.queued_tasks(st)
+
+
+ManagedBSE.digest = _digest
+ManagedBSE.queued_for = _queued_for
